@@ -137,8 +137,14 @@ def run_history(out, solver, hist, d, nx, nrho, nsc, reuse):
                         return s
                 out['witnesses']['reachability'] += 1
             elif op in ('T1', 'T8', 'Toff'):
-                mask = {'T1': mask ^ 1, 'T8': (mask ^ 8) if cfg[3] else mask ^ 2, 'Toff': 0}[op]
-                s.ok('h_sys_switches', [obj, mask, step % 5])
+                newmask = {'T1': mask ^ 1, 'T8': (mask ^ 16) if cfg[3] else mask ^ 2, 'Toff': 0}[op]
+                if op == 'Toff':
+                    s.ok('h_sys_switches', [obj, 0, step % 5])
+                else:
+                    # a toggle is ONE setter call (the last one before the next Evolve): Set_CoherentRhoTerms, or Set_OtherScalarTerms / Set_NonCoherentRhoTerms
+                    which = 0 if op == 'T1' else (4 if cfg[3] else 1)
+                    s.ok('h_sys_switch_one', [obj, which, 1 if (newmask >> which) & 1 else 0])
+                mask = newmask
             elif op == 'ST':
                 adaptive = not adaptive
                 s.ok('h_sys_stepping', [obj, 1 if adaptive else 0, 5, 0])
@@ -236,6 +242,7 @@ for step,op in enumerate(cfg['hist']):
         texp+=dt
         if abs(lib.h_sys_get_t(p)-texp)>1e-12: problems.append('step %d: clock %.17g expected %.17g'%(step,lib.h_sys_get_t(p),texp))
         after=(Dd*n)(); lib.h_sys_read(p,nx,d,nrho,nsc,after)
+        if mask!=0 and dt>0 and list(before)==list(after): problems.append('step %d: terms are enabled (switches %s) but the state did not change at all: no integration'%(step,format(mask,'05b')))
         if mask==0:
             if list(before)!=list(after): problems.append('step %d: state changed with numerics off'%step)
             if lib.h_pre_count()!=c0+1 or abs(lib.h_pre_last()-texp)>1e-12: problems.append('step %d: PreDerive not called once with the new time'%step)
@@ -243,7 +250,11 @@ for step,op in enumerate(cfg['hist']):
         for i in range(0,len(vw),2):
             if vw[i]!=vw[i+1] and not (nsc==0 and (i//2)%(nrho+1)==nrho): problems.append('step %d: in-step view %d differs from the stored state'%(step,i//2)); break
     elif op in ('T1','T8','Toff'):
-        mask={'T1':mask^1,'T8':(mask^8) if nsc else mask^2,'Toff':0}[op]; lib.h_sys_switches(p,mask,step%5)
+        newmask={'T1':mask^1,'T8':(mask^16) if nsc else mask^2,'Toff':0}[op]
+        if op=='Toff': lib.h_sys_switches(p,0,step%5)
+        else:
+            which=0 if op=='T1' else (4 if nsc else 1); lib.h_sys_switch_one.argtypes=[V,U,U]; lib.h_sys_switch_one(p,which,(newmask>>which)&1)
+        mask=newmask
     elif op=='ST':
         adaptive=1-adaptive; lib.h_sys_stepping(p,adaptive,50,2)
     elif op=='MC':
